@@ -115,7 +115,10 @@ class Report:
                 kf.append(d)
             else:
                 viol.append(d)
-        os.makedirs(os.path.join(VERIF, "replay"), exist_ok=True)
+        rdir = os.path.join(VERIF, "replay")
+        if os.environ.get("VERIF_REPO", "/repo") != "/repo":
+            rdir = os.path.join(os.environ.get("TMPDIR", "/tmp"), "verif-scratch-replay")
+        os.makedirs(rdir, exist_ok=True)
         seen = set()
         for d in kf:
             if d["key"] in seen:
@@ -124,7 +127,7 @@ class Report:
             print("KNOWN-FINDING: property=%s %s %s" % (self.prop, d["key"], open_keys[d["key"]].get("what", d["what"])))
         for d in viol:
             h = hashlib.sha256(d["key"].encode()).hexdigest()[:12]
-            path = os.path.join(VERIF, "replay", "%s-%s.json" % (self.prop, h))
+            path = os.path.join(rdir, "%s-%s.json" % (self.prop, h))
             with open(path, "w") as fh:
                 json.dump(dict(d, property=self.prop), fh, indent=1)
             print("  rule=%s key=%s" % (d["rule"], d["key"]))
@@ -181,6 +184,9 @@ class Report:
             "wall_s": round(wall, 2),
             "violations": nviol,
         }
-        os.makedirs(os.path.join(VERIF, "evidence"), exist_ok=True)
-        with open(os.path.join(VERIF, "evidence", self.prop + ".json"), "w") as fh:
+        evdir = os.path.join(VERIF, "evidence")
+        if os.environ.get("VERIF_REPO", "/repo") != "/repo":
+            evdir = os.path.join(os.environ.get("TMPDIR", "/tmp"), "verif-scratch-evidence")  # scratch trees never touch evidence/
+        os.makedirs(evdir, exist_ok=True)
+        with open(os.path.join(evdir, self.prop + ".json"), "w") as fh:
             json.dump(ev, fh, indent=1, sort_keys=True)
